@@ -95,9 +95,9 @@ func (c *conn) Close() error {
 // Returns any error encountered while closing the stream.
 func (c *conn) terminate(err error) error {
 	c.cancel(err) // Cancel the server context
-	if tx := c.tx.Swap(chan txMsg(nil)); tx != nil && tx != chan txMsg(nil) {
-		close(tx.(chan txMsg))
-	}
+	// The tx channel is deliberately left open: send() may be selecting on it
+	// from another goroutine, and sending on a closed channel panics. Both send()
+	// and writeloop() return on context cancellation instead.
 	return c.stream.Close() // Close the connection
 }
 
